@@ -65,6 +65,16 @@ func (fc *funcCtx) call(st *State, ins ssa.Instruction, com *ssa.CallCommon, isG
 }
 
 func (fc *funcCtx) unknownCall(st *State, com *ssa.CallCommon, args []Value) Value {
+	// the channel protocol cannot be established once a channel is handed to code without a contract
+	for i, a := range args {
+		if ch, ok := a.(ChanV); ok && ch.ID != "nilchan" {
+			name := "arg"
+			if i < len(com.Args) {
+				name = fc.chanName(com.Args[i])
+			}
+			fc.oblige(st, "chan-escape", name+"/"+fc.site(com.Pos(), "call"), "false", "channel "+name+" is passed to a function that has no contract: sends, closes and blocking behaviour on it are no longer under contract")
+		}
+	}
 	// anything reachable through pointer/slice arguments may have changed
 	for _, a := range args {
 		switch x := a.(type) {
